@@ -9,6 +9,7 @@ the caller treats the tie as broken.
   bond.py       bond order from preceding characters  -> SrcBond.order_of_pre / order_empty
   distribution.py  get_distribution                   -> SrcDist.dispatch
   forcefield_helper.py  get_assignment_class          -> SrcFF.cache_step
+  stochastic.py  Stochastic._validate                 -> SrcStoch.validate_bad / validate_count
 """
 import ast
 import os
@@ -405,10 +406,87 @@ def translate_ff(path):
     return "\n".join(out) + "\n"
 
 
+# ----------------------------------------------------------------------------------------------
+# Stochastic._validate
+CMP = {
+    ast.NotEq: "negb (Nat.eqb {a} {b})",
+    ast.Eq: "Nat.eqb {a} {b}",
+    ast.Gt: "Nat.ltb {b} {a}",
+    ast.Lt: "Nat.ltb {a} {b}",
+    ast.GtE: "Nat.leb {b} {a}",
+    ast.LtE: "Nat.leb {a} {b}",
+}
+
+
+def _self_attr(e, name):
+    return isinstance(e, ast.Attribute) and isinstance(e.value, ast.Name) and e.value.id == "self" and e.attr == name
+
+
+def _len_of(e):
+    if isinstance(e, ast.Call) and isinstance(e.func, ast.Name) and e.func.id == "len" and len(e.args) == 1:
+        return e.args[0]
+    return None
+
+
+def translate_stoch(path):
+    mod = ast.parse(open(path).read())
+    fn = _fn(_cls(mod, "Stochastic").body, "_validate")
+    if [a.arg for a in fn.args.args] != ["self"] or len(fn.body) != 2:
+        raise Unsupported("_validate shape")
+    loop, count = fn.body
+    # for bd in self.bond_descriptors + [self.left_terminal, self.right_terminal]:
+    ok = (isinstance(loop, ast.For) and isinstance(loop.target, ast.Name) and not loop.orelse and isinstance(loop.iter, ast.BinOp) and isinstance(loop.iter.op, ast.Add)
+          and _self_attr(loop.iter.left, "bond_descriptors") and isinstance(loop.iter.right, ast.List) and len(loop.iter.right.elts) == 2
+          and _self_attr(loop.iter.right.elts[0], "left_terminal") and _self_attr(loop.iter.right.elts[1], "right_terminal") and len(loop.body) == 1)
+    if not ok:
+        raise Unsupported("_validate loop header")
+    v = loop.target.id
+    st = loop.body[0]
+    if not (isinstance(st, ast.If) and not st.orelse and len(st.body) == 1 and isinstance(st.body[0], ast.Raise)):
+        raise Unsupported("_validate loop body")
+    t = st.test
+    # bd.transitions is not None and len(bd.transitions) <op> len(self.bond_descriptors)
+    def is_tr(e):
+        return isinstance(e, ast.Attribute) and isinstance(e.value, ast.Name) and e.value.id == v and e.attr == "transitions"
+    ok = (isinstance(t, ast.BoolOp) and isinstance(t.op, ast.And) and len(t.values) == 2 and isinstance(t.values[0], ast.Compare) and is_tr(t.values[0].left)
+          and len(t.values[0].ops) == 1 and isinstance(t.values[0].ops[0], ast.IsNot) and isinstance(t.values[0].comparators[0], ast.Constant) and t.values[0].comparators[0].value is None
+          and isinstance(t.values[1], ast.Compare) and len(t.values[1].ops) == 1 and type(t.values[1].ops[0]) in CMP)
+    if not ok:
+        raise Unsupported("_validate condition " + ast.dump(t)[:200])
+    la, lb = _len_of(t.values[1].left), _len_of(t.values[1].comparators[0])
+    if la is None or lb is None or not is_tr(la) or not _self_attr(lb, "bond_descriptors"):
+        raise Unsupported("_validate length comparison")
+    cmp_ = CMP[type(t.values[1].ops[0])].format(a="(List.length tr)", b="(List.length bds)")
+    # if not len(self.bond_descriptors) == len(self.end_bonds) + len(self.repeat_bonds): raise
+    c = count
+    ok = (isinstance(c, ast.If) and not c.orelse and len(c.body) == 1 and isinstance(c.body[0], ast.Raise) and isinstance(c.test, ast.UnaryOp) and isinstance(c.test.op, ast.Not)
+          and isinstance(c.test.operand, ast.Compare) and len(c.test.operand.ops) == 1 and isinstance(c.test.operand.ops[0], ast.Eq))
+    if ok:
+        l0 = _len_of(c.test.operand.left)
+        r0 = c.test.operand.comparators[0]
+        ok = (l0 is not None and _self_attr(l0, "bond_descriptors") and isinstance(r0, ast.BinOp) and isinstance(r0.op, ast.Add)
+              and {getattr(_len_of(r0.left), "attr", None), getattr(_len_of(r0.right), "attr", None)} == {"end_bonds", "repeat_bonds"})
+    if not ok:
+        raise Unsupported("_validate count check")
+    out = [
+        f"(* generated by harness/translate.py from stochastic.py:{fn.lineno}-{fn.end_lineno} -- do not edit *)",
+        "From Coq Require Import Bool List Arith.",
+        "From GBS Require Import Model.PyStr Model.Num Model.Bond.",
+        "Import ListNotations. Open Scope bool_scope.",
+        "(* true iff _validate raises in its loop over the descriptors and the two terminals *)",
+        "Definition validate_bad (bds : list descr) (lft rgt : descr) : bool :=",
+        f"  existsb (fun {v} => match d_trans {v} with Some tr => {cmp_} | None => false end) (bds ++ [lft; rgt]).",
+        "(* the second test of _validate compares the descriptor table with the sum of its two halves *)",
+        "Definition validate_count (nbds nend nrep : nat) : bool := negb (Nat.eqb nbds (nend + nrep)).",
+    ]
+    return "\n".join(out) + "\n"
+
+
 TARGETS = {
     "SrcBond": ("bond.py", translate_bond),
     "SrcDist": ("distribution.py", translate_dist),
     "SrcFF": ("forcefield_helper.py", translate_ff),
+    "SrcStoch": ("stochastic.py", translate_stoch),
 }
 
 STUB = "(* translator failed: {msg} *)\nFrom GBS Require Import Model.PyStr.\n"
